@@ -5,7 +5,8 @@ import Dcg.Gen.EscTables
 /-
 Dcg.Model.Enum — transliteration of `JsonSchemaParser.parse_enum` (member construction),
 `parse_enum_as_literal`, `should_parse_enum_as_literal`, `model/enum.py Enum.find_member` and the
-`if not model_field.default` guard of `Parser.__set_default_enum_member`.
+`if model_field.default is None` guard of `Parser.__set_default_enum_member` (only a MISSING default is
+skipped; falsy defaults `0` / `""` / `false` are looked up like any other).
 
 Enum entries are scalar JSON values (`JVal`); lists/objects as enum entries are outside the model.
 A float is its `repr` token together with its integer value when it is integral (both supplied by
@@ -46,13 +47,10 @@ def JVal.typeName : JVal → List Char
   | .bool _ => ['b', 'o', 'o', 'l']
   | .null => ['N', 'o', 'n', 'e', 'T', 'y', 'p', 'e']
 
-/-- `not v` -/
-def JVal.falsy : JVal → Bool
-  | .str s => s.isEmpty
-  | .int i => i == 0
-  | .float _ iv => iv == some 0
-  | .bool b => !b
+/-- `v is None` -/
+def JVal.isNull : JVal → Bool
   | .null => true
+  | _ => false
 
 def JVal.isStr : JVal → Bool
   | .str _ => true
@@ -160,25 +158,33 @@ def isQ (c : Char) : Bool := c == '\'' || c == '"'
 /-- `s.strip("'\"")` -/
 def stripQ (s : List Char) : List Char := ((s.dropWhile isQ).reverse.dropWhile isQ).reverse
 
-/-- `str(field.default or "")` -/
-def Default.strOrEmpty : Default → List Char
-  | .lit t => t
-  | .raw v => if v.falsy then [] else v.pyStr
+/-- `field.default is None` (the member `NoneType_None = None` of known finding D12) -/
+def Default.isNone : Default → Bool
+  | .raw .null => true
+  | _ => false
 
-/-- the two comparisons of `find_member` for one member -/
+/-- `str(field.default)` -/
+def Default.pyStr : Default → List Char
+  | .lit t => t
+  | .raw v => v.pyStr
+
+/-- one member of the loop of `find_member`: a member without value (`field.default is None`) is skipped,
+otherwise the two comparisons (`str(field.default).strip("'\"") == str(value).strip("'\"")`, then
+`field.default == repr(value)`, which only a string default can satisfy) -/
 def memberMatches (value : JVal) (reprValue : List Char) (m : Member) : Bool :=
-  stripQ m.2.strOrEmpty == stripQ value.pyStr ||
-    (match m.2 with
-     | .lit t => t == reprValue
-     | .raw _ => false)
+  !m.2.isNone &&
+    (stripQ m.2.pyStr == stripQ value.pyStr ||
+      (match m.2 with
+       | .lit t => t == reprValue
+       | .raw _ => false))
 
 /-- `Enum.find_member(value)`; `reprValue` = `repr(value)` -/
 def findMember (ms : List Member) (value : JVal) (reprValue : List Char) : Option (List Char) :=
   (ms.find? (memberMatches value reprValue)).map (·.1)
 
-/-- `__set_default_enum_member` for a scalar default: falsy defaults are skipped -/
+/-- `__set_default_enum_member` for a scalar default: only a missing default (`None`) is skipped -/
 def defaultMember (ms : List Member) (value : JVal) (reprValue : List Char) : Option (List Char) :=
-  if value.falsy then none else findMember ms value reprValue
+  if value.isNull then none else findMember ms value reprValue
 
 
 /-! ### `Parser.__set_default_enum_member` over a whole run: `Member` objects and their aliases
@@ -264,7 +270,7 @@ def findAll (h : Heap) (enumName : List Char) (ms : List Member) : List (JVal ×
 def applyStep (h : Heap) (s : Step) : Heap × Out :=
   match s.default with
   | .scalar v r =>
-    if v.falsy then (h, .unchanged)                        -- `if not model_field.default: continue`
+    if v.isNull then (h, .unchanged)                       -- `if model_field.default is None: continue`
     else match findMember s.members v r with
       | none => (h, .unchanged)                            -- `if not enum_member: continue`
       | some n =>
@@ -274,7 +280,7 @@ def applyStep (h : Heap) (s : Step) : Heap × Out :=
         | none => (h1, .one a)
   | .list vs =>
     match findAll h s.enumName s.members vs with
-    | (h1, []) => (h1, .unchanged)                         -- empty list of members (or empty default): falsy
+    | (h1, []) => (h1, .unchanged)                         -- no member found (or `default: []`): `if not enum_member: continue`
     | (h1, a :: as) =>
       match truthyAlias s.dtAlias with
       | some al => (setAliases h1 (a :: as) al, .many (a :: as))
@@ -306,7 +312,7 @@ def renderOut (h : Heap) : Out → Text
 /-- the names of the members the field's default resolves to (no heap) -/
 def foundNames (s : Step) : List (List Char) :=
   match s.default with
-  | .scalar v r => if v.falsy then [] else (findMember s.members v r).toList
+  | .scalar v r => if v.isNull then [] else (findMember s.members v r).toList
   | .list vs => vs.filterMap (fun p => findMember s.members p.1 p.2)
 
 /-- text of the member `n` as seen from the field's own module -/
